@@ -313,7 +313,36 @@ def gen_soup(rng, W):
             parts.append(sep)
             classes.append("_" if sep else "")
         return "".join(parts), tuple(classes)
-    if r < 0.78:
+    if r < 0.70 + 0.10:
+        # group-edge soup: properly CLOSED groups (nested 1..3 deep, not the whole query) whose first / last
+        # element is a hostile atom (operator, boost, punctuation, range piece ...): the plugin filters recurse
+        # into groups, and the clean-up passes that protect the top level do not
+        bag, wts = [], []
+        for name, atoms, wt in ATOM_CLASSES:
+            bag.append((name, atoms))
+            wts.append(wt)
+
+        def atom():
+            name, atoms = rng.choices(bag, wts)[0]
+            return rng.choice(atoms), name
+
+        def group(depth):
+            first, c1 = atom()
+            last, c2 = atom()
+            mid = rng.choice(["", "a", "alfa bravo", "a OR b", "t:c"])
+            inner, cls = "", ()
+            if depth > 1 and rng.random() < 0.6:
+                inner, cls = group(depth - 1)
+            opener = rng.choice(["(", "(", "( ", "t:(", "NOT (", "k:("])
+            body = " ".join(x for x in [first if rng.random() < 0.8 else "", mid, inner, last if rng.random() < 0.5 else ""] if x)
+            return opener + body + rng.choice([")", ")", ")^2", ") "]), (c1, c2) + cls
+        g, cls = group(rng.randint(1, 3))
+        before = rng.choice(["bravo ", "bravo OR ", "NOT ", "t:x ", "a AND ", ""])
+        after = rng.choice(["", " charlie", " OR d", " AND", "^2"])
+        if not before and not after:
+            before = "bravo "
+        return before + g + after, ("groupedge",) + cls
+    if r < 0.86:
         depth = rng.choice([1, 2, 3, 5, 10, 20, 40, 40, 60])
         opener = rng.choice(["(", "t:(", "NOT (", "(a ", "((", "\"(", "k:(b OR "])
         if rng.random() < 0.04:
